@@ -20,7 +20,7 @@ import (
 )
 
 func c10proj(c *Ctx) {
-	c.Rule("C10.R1", "no per-call state survives in a Transformer: (a) a closure that becomes a Transformer never assigns to a captured variable; (b) never stores a value that depends on its arguments into a captured or package-level location; (c) every store to a spatial reference made by the constructors/helpers it calls is a lazy initialisation guarded by an 'unset' test of the same field, a normalising overwrite from constants and fields that are stable on the per-call path, or a saved-and-restored temporary")
+	c.Rule("C10.R1", "no per-call state survives in a Transformer: (a) a closure that becomes a Transformer never assigns to a captured variable; (b) never stores a value that depends on its arguments into a captured or package-level location; model evaluation with symbolic parameters: for eleven pairs of references the same position gives the same term after the transformer was used for another position and neither reference changes; for every registered projection the members rebuilt and reused give the same terms and leave the reference as the first construction left it; a datum shift leaves both datums as they were")
 	c.Rule("C10.R2", "an index expression s[k] with constant k on the coordinate slice is dominated by a guard implying len(s) > k, or k is below the length of the literal every caller passes")
 	p := c.P.Pkg("proj")
 	if p == nil {
